@@ -456,6 +456,53 @@ fn run_side(f: fn() -> String, seed: u64) -> Side {
     Side { result: r.map_err(|p| crate::runner::panic_message(&p)), evs, counters: (cloned, live) }
 }
 
+/// reference side of the step stage of C03: a mark in front of every step
+pub fn smark(step: u32) {
+    log::ev(step, K::Mark, tag::NONE, 0);
+}
+
+/// C03 (chain stage): the reference was evaluated step by step across the branches with marks between
+/// the steps; the macro's global sequence of events must not go back to an earlier step
+fn step_barrier(re: &[(u32, K, u64)], me: &[(u32, K, u64)]) -> Option<String> {
+    let relevant = |e: &(u32, K, u64)| matches!(e.1, K::Call | K::Op | K::Cap);
+    let mut step = 0usize;
+    let mut steps: BTreeMap<u32, Vec<usize>> = BTreeMap::new();
+    let mut rseq: BTreeMap<u32, Vec<(u32, K, u64)>> = BTreeMap::new();
+    for e in re {
+        if e.1 == K::Mark {
+            step = e.0 as usize;
+        } else if relevant(e) {
+            steps.entry(e.0 / 1000).or_default().push(step);
+            rseq.entry(e.0 / 1000).or_default().push(*e);
+        }
+    }
+    let mut mseq: BTreeMap<u32, Vec<(u32, K, u64)>> = BTreeMap::new();
+    for e in me.iter().filter(|e| relevant(e)) {
+        mseq.entry(e.0 / 1000).or_default().push(*e);
+    }
+    if mseq != rseq {
+        // what a branch does differs from the documented chain: not a question of steps (C01 / C11)
+        return None;
+    }
+    let mut at: BTreeMap<u32, usize> = BTreeMap::new();
+    let mut cur = 0usize;
+    let mut cur_ev: Option<(u32, K, u64)> = None;
+    for e in me.iter().filter(|e| relevant(e)) {
+        let b = e.0 / 1000;
+        let k = at.entry(b).or_insert(0);
+        let s = steps[&b][*k];
+        *k += 1;
+        if s < cur {
+            return Some(format!("{:?} #{} of branch {} belongs to step {} of the documented evaluation but ran after {:?} of step {} (macro events {:?})", e.1, e.0, b, s, cur_ev, cur, me.iter().filter(|e| relevant(e)).collect::<Vec<_>>()));
+        }
+        if s > cur {
+            cur = s;
+            cur_ev = Some(*e);
+        }
+    }
+    None
+}
+
 fn per_branch(evs: &[(u32, K, u64)]) -> BTreeMap<u32, Vec<(u32, K, u64)>> {
     let mut m: BTreeMap<u32, Vec<(u32, K, u64)>> = BTreeMap::new();
     for e in evs {
@@ -488,6 +535,11 @@ fn compare(mode: &str, c: &ChainCase, rside: &Side, mside: &Side) -> Option<Stri
                         detail = Some(format!("the macro side made {} clones of counted values, the documented chain {}", mside.counters.0, rside.counters.0));
                     } else if mside.counters.1 != 0 {
                         detail = Some(format!("{} counted values still alive (or dropped twice) after the macro's result was dropped", mside.counters.1));
+                    }
+                }
+                "C03" => {
+                    if rr == mr {
+                        detail = step_barrier(&re, &me);
                     }
                 }
                 // C11: block operands evaluated once each, in branch-then-position order
@@ -561,6 +613,7 @@ pub fn main(cases: &[ChainCase]) {
             let n_calls = calls(&re).len();
             let n_caps = caps(&re).len();
             let nt = match mode.as_str() {
+                "C03" => c.n_ops >= 2 && n_calls >= 1 && re.iter().filter(|e| e.1 == K::Mark).count() >= 2,
                 "C11" => n_caps >= 2,
                 "C10" => n_calls >= 2 && n_caps >= 1,
                 _ => c.n_ops >= 2 && n_calls >= 1,
